@@ -20,6 +20,7 @@ import (
 	"net"
 	"os"
 	"sync"
+	"sync/atomic"
 	"testing"
 	"time"
 
@@ -50,6 +51,11 @@ type fakeORGB struct {
 	misaddressed int
 	// delay: the server answers controller queries (count, data) this late - a busy or slow OpenRGB daemon
 	delay time.Duration
+	// stall (set atomically by the harness, a harness -> server edge only) and stallFor: once stall is 1 the server stops reading
+	// from its connection for stallFor (a daemon that is alive but busy): with frames larger than the socket buffers the LED loop
+	// then sits inside a frame, blocked in its write
+	stall    int32
+	stallFor int64 // nanoseconds, accessed atomically
 
 	mu     sync.Mutex
 	cond   *sync.Cond
@@ -182,7 +188,11 @@ func (s *fakeORGB) fail(msg string) {
 func (s *fakeORGB) serve(c net.Conn) {
 	defer c.Close()
 	hdr := make([]byte, 16)
+	stallFor := time.Duration(atomic.LoadInt64(&s.stallFor))
 	for {
+		if stallFor > 0 && atomic.CompareAndSwapInt32(&s.stall, 1, 2) {
+			time.Sleep(stallFor)
+		}
 		if _, err := io.ReadFull(c, hdr); err != nil {
 			return
 		}
@@ -235,8 +245,12 @@ func (s *fakeORGB) serve(c net.Conn) {
 			f := orgbFrame{Seq: s.nFrame, At: time.Now(), Colors: cols}
 			s.last = &f
 			s.recent = append(s.recent, f)
-			if len(s.recent) > 256 {
-				s.recent = s.recent[len(s.recent)-128:]
+			if len(s.recent) > 256 || (k > 2000 && len(s.recent) > 16) {
+				keep := 128
+				if k > 2000 {
+					keep = 8
+				}
+				s.recent = s.recent[len(s.recent)-keep:]
 			}
 			s.cond.Broadcast()
 			s.mu.Unlock()
